@@ -292,6 +292,9 @@ def ack_fields(ctx):
              policy=dict(p_loss=0.25, p_dup=0.1, maxdelay=20, lens=[4, 20, 100, 600], retries=(0, 1, -1)), world=dict(start_seq="alt")),
         dict(name="ack-fields-wrap", n=2 if q else 12, nticks=600 if q else 2500, heal_after=450 if q else 2000,
              policy=dict(p_loss=0.4, p_send=0.6, maxdelay=6, lens=[4, 5]), world=dict(start_seq=65500)),
+        # datagrams damaged in transit and forged headers: "received" means authenticated - nothing else may enter the windows or be acknowledged
+        dict(name="ack-fields-damaged", n=3 if q else 20, nticks=500 if q else 2000, heal_after=380 if q else 1600,
+             policy=dict(p_forge=0.4, p_loss=0.15, p_dup=0.05, maxdelay=10, lens=[4, 20, 100]), world=dict(start_seq=65480)),
     ])
 
 
